@@ -11,11 +11,15 @@ impl Layout {
     pub(super) fn new(start: i64, end: i64) -> Option<Self> {
         let min = start;
         let max = end;
-        let len = (max - min + 1) as usize;
-        if len < Heap32::POWER as usize {
+        if max < min {
             return None;
         }
-        let p = (len - 1).ilog2() + 1;
+        // offset of the last point, len - 1; a 64-bit domain may hold more than i64::MAX points
+        let last = max.wrapping_sub(min) as u64;
+        if last < Heap32::POWER as u64 {
+            return None;
+        }
+        let p = last.ilog2() + 1;
         if p < Heap32::POWER {
             return None;
         }
@@ -26,7 +30,7 @@ impl Layout {
 
     #[inline]
     pub(super) fn index(&self, value: i64) -> u32 {
-        ((value - self.min) >> self.scale) as u32
+        ((value.wrapping_sub(self.min) as u64) >> self.scale) as u32
     }
 
     #[inline]
